@@ -31,7 +31,11 @@ partial def genVal (S : Schema) (depth : Nat) (k : FKind) (s : Nat) : Val × Nat
   | .lengthOf t _ => let (i, s) := pick s (intCands t.width).length; (.int ((intCands t.width).getD i 0), s)
   | .checksum t _ => let (i, s) := pick s (intCands t.width).length; (.int ((intCands t.width).getD i 0), s)
   | .fixed n _ => let (i, s) := pick s (fixedCands n).length; (.str ((fixedCands n).getD i []), s)
-  | .dyn => let (i, s) := pick s strCands.length; (.str (strCands.getD i []), s)
+  | .dyn =>
+    -- lengths in the upper half of the prefix range expose decoders that read the count signed
+    let long : List Bytes := if S.cfg.strPfx.width = 1 then [List.replicate 200 121] else if S.cfg.strPfx.width = 2 then [List.replicate 33000 121] else []
+    let c := strCands ++ long
+    let (i, s) := pick s c.length; (.str (c.getD i []), s)
   | .obj pkt =>
     match S.find pkt with
     | some p => let (vs, s) := genFields S (depth - 1) p.fields [] s; (.struct vs, s)
@@ -49,7 +53,9 @@ where
     -- first pass: generate every field; second pass: make key members consistent with payloads
     let (vs, s) := fs.foldl (fun (acc, s) f =>
       if f.rep then
-        let (n, s) := pick s (if depth = 0 then 1 else 4)
+        let (n0, s) := pick s (if depth = 0 then 1 else 6)
+        let small := match f.kind with | .scalar _ => true | .dyn => true | .fixed _ _ => true | _ => false
+        let n := if n0 < 4 then n0 else if !small then 2 else if S.cfg.listPfx.width = 1 then 130 else if S.cfg.listPfx.width = 2 ∧ n0 = 5 then 33000 else 3
         let (es, s) := (List.range n).foldl (fun (es, s) _ => let (v, s) := genVal S depth f.kind s; (es ++ [v], s)) ([], s)
         (acc ++ [Val.list es], s)
       else
